@@ -7,7 +7,7 @@
      4  accepted, the reader model panics.
    Kinds and contexts are those of Model/SpecTie.v (tools/props/c05spec.py KINDS). *)
 From HV Require Import Base.Prelude Base.Outcome Base.Bytes Spec.Parse Spec.Format Spec.FormatMsg
-  Model.CodecMsg Model.CodecType Model.CodecLink Model.CodecAttr Model.CodecSuper Model.SpecTie.
+  Model.CodecMsg Model.CodecType Model.CodecLink Model.CodecAttr Model.CodecSuper Model.CodecFilter Model.SpecTie.
 
 Definition listN_eqb : list N -> list N -> bool := list_eqb N.eqb.
 Definition optl_eqb (a b : option (list N)) : bool :=
@@ -96,15 +96,31 @@ Definition ai_agreeb (s : attrinfo_spec) (v : attrinfo) : bool :=
   (ai_heap v =? ais_heap s) && (ai_btname v =? ais_btname s) &&
   (ai_btorder v =? match ais_btorder s with Some b => b | None => 0 end).
 
-Definition rs_code (kind : N) (ctx : list N) (bs : bytes) : N :=
+(* filter pipeline: identifiers, flags and client data of every filter (the reader hands the name back cut at its first NUL) *)
+Definition fl_agreeb (f : filter_spec) (r : rfilter) : bool :=
+  (rf_id r =? fl_id f) && (rf_flags r =? fl_flags f) &&
+  listN_eqb (match rf_cd r with Some c => c | None => [] end) (fl_cd f).
+Definition pl_agreeb (fs : list filter_spec) (p : pipeline') : bool :=
+  (pl_nfilters p =? N.of_nat (length fs)) &&
+  (fix go (a : list filter_spec) (b : list rfilter) : bool :=
+     match a, b with
+     | [], [] => true
+     | x :: a', y :: b' => fl_agreeb x y && go a' b'
+     | _, _ => false
+     end) fs (pl_filters p).
+
+(* [sbr], [atr], [plr]: the variants of the three C06 repair switches (Model/CodecSuper.v superblock_sizes_repaired,
+   Model/CodecAttr.v attribute_v2_unpadded, Model/CodecFilter.v pipeline_v2_names) that the source tree under test implements *)
+Definition rs_code_gen (sbr atr plr : bool) (kind : N) (ctx : list N) (bs : bytes) : N :=
   match kind with
-  | 1 => rs_outcome (spec_dec_superblock strict bs) (dec_superblock bs) (fun x v => sb_agreeb (fst (fst x)) v)
+  | 1 => rs_outcome (spec_dec_superblock strict bs) (dec_superblock_gen sbr bs) (fun x v => sb_agreeb (fst (fst x)) v)
   | 5 => rs_outcome (spec_dec_dataspace (cn ctx 0) (cb ctx 1) bs) (dec_dataspace bs) ds_agreeb
   | 6 => rs_outcome (spec_dec_datatype strict (cb ctx 0) bs) (dec_datatype bs) (fun x v => dt_agreeb (fst x) v)
   | 7 => rs_outcome (spec_dec_layout (cn ctx 0) (cn ctx 1) true bs)
            (dec_layout {| sb_version := 0; sb_offsize := cx ctx 0; sb_lensize := cx ctx 1; sb_bigendian := false |} bs)
            ly_agreeb
-  | 9 => rs_outcome (spec_dec_attribute strict (cn ctx 0) (cb ctx 1) bs) (dec_attribute false bs)
+  | 8 => rs_outcome (spec_dec_pipeline strict true bs) (dec_pipeline_gen plr bs) (fun x v => pl_agreeb (fst x) v)
+  | 9 => rs_outcome (spec_dec_attribute strict (cn ctx 0) (cb ctx 1) bs) (dec_attribute_gen atr false bs)
            (fun x v => at_agreeb (fst x) v)
   | 10 => rs_outcome (spec_dec_attrinfo (cn ctx 0) false bs)
             (dec_attrinfo {| sb_version := 0; sb_offsize := cx ctx 0; sb_lensize := 8; sb_bigendian := false |} bs) ai_agreeb
@@ -112,6 +128,10 @@ Definition rs_code (kind : N) (ctx : list N) (bs : bytes) : N :=
   | 12 => rs_outcome (spec_dec_symtab (cn ctx 0) (cb ctx 1) bs) (dec_symtab false bs) st_agreeb
   | _ => 0
   end.
+Definition rs_code : N -> list N -> bytes -> N :=
+  rs_code_gen superblock_sizes_repaired attribute_v2_unpadded pipeline_v2_names.
 
 Definition rs_case := (N * list N * string)%type.
+Definition rs_case_code_gen (sbr atr plr : bool) (c : rs_case) : N :=
+  match c with (kind, ctx, hex) => rs_code_gen sbr atr plr kind ctx (unhex hex) end.
 Definition rs_case_code (c : rs_case) : N := match c with (kind, ctx, hex) => rs_code kind ctx (unhex hex) end.
